@@ -203,6 +203,34 @@ inline void drive_c17()
         // ... and through every other constructor the layers offer for that purpose
         rebuild_all<Z>(f, *m, rng, std::make_integer_sequence<int, Z::rebuild_forms>{});
         compare_with_model<Z>(f, *m, rng, 40, "original:lookup", "original after the rebuilds");
+        // a field that was assigned over reports the configuration of its source, whatever it held before:
+        // a larger field of the same type (other extents, boxes, defaults, matrices in every layer) shrunk onto f,
+        // and a field that grew to that larger one first
+        {
+            vh::set_case("%s configuration read-back after copy assignment over a larger field", Z::name());
+            typename Z::field_t o = Z::template make_other<>();
+            o = f;
+            int ob = Z::config_mismatch(o);
+            vh::ev(Z::depth);
+            vh::stat("readbacks_after_assignment");
+            if (ob >= 0) vh::viol("configuration-readback:assigned", std::string(Z::type_string()) + " [" + Z::name() + "] layer " + std::to_string(ob) + " reports something other than its source's configuration after copy assignment over a larger field");
+            compare_with_model<Z>(o, *m, rng, 40, "assigned:lookup", "copy-assigned over a larger field");
+            vh::set_case("%s configuration read-back after growing and shrinking by assignment", Z::name());
+            typename Z::field_t q = Z::make();
+            {
+                typename Z::field_t big = Z::template make_other<>();
+                q = big;
+            }
+            q = f;
+            int qb = Z::config_mismatch(q);
+            vh::ev(Z::depth);
+            vh::stat("readbacks_after_assignment");
+            if (qb >= 0) vh::viol("configuration-readback:assigned", std::string(Z::type_string()) + " [" + Z::name() + "] layer " + std::to_string(qb) + " reports something other than its source's configuration after growing and shrinking by copy assignment");
+            typename Z::field_t rb = Z::rebuild(q);
+            int rbb = Z::config_mismatch(rb);
+            if (rbb >= 0) vh::viol("rebuild:configuration", std::string(Z::type_string()) + " layer " + std::to_string(rbb) + " (rebuilt from a field that grew and shrank by assignment)");
+            compare_with_model<Z>(rb, *m, rng, 40, "rebuild:lookup", "rebuilt from an assigned-over field");
+        }
     }
     if (bad >= 0) vh::viol("configuration-readback", std::string(Z::type_string()) + " [" + Z::name() + "] layer " + std::to_string(bad) + " (counted from the outside) reports a configuration other than the one it was built with");
     vh::stat("stacks");
